@@ -23,7 +23,7 @@ BOOLS = {
     'urlencode_quote_via_is_quote_plus': True, 'route_path_script_quoted': True,
     'resource_path_script_quoted': True, 'static_path_script_quoted': True,
     'current_route_path_script_quoted': True, 'join_elements_key_stringified': False,
-    'static_external_uses_urljoin': False,
+    'static_external_uses_urljoin': False, 'url_helpers_keep_no_request_state': True,
 }
 TABLES = {'implied_ports': [('https', '443'), ('http', '80')], 'elided_ports': [('https', '443'), ('http', '80')]}
 
@@ -386,6 +386,54 @@ def extract(src, problems, soft=()):
             raise Bad('join in generator')
         vals['star_sep'] = _resolve(jn[0].func.value, {})
     attempt('_compile_route', compile_route)
+
+    def stateless():
+        """URL generation reads the request (environ, script_name, registry, matchdict ..) and never writes it: no
+        memoising decorator on a method of URLMethodsMixin, no attribute / item store on self, request or their environ"""
+        bools['url_helpers_keep_no_request_state'] = False
+        cls = _need(url.find('URLMethodsMixin'), 'URLMethodsMixin')
+        for st in cls.body:
+            if isinstance(st, ast.FunctionDef):
+                if st.decorator_list:
+                    raise Bad('URLMethodsMixin.%s is decorated (%s)' % (st.name, ', '.join(ast.unparse(d) for d in st.decorator_list)))
+            elif isinstance(st, ast.Assign):
+                if not (len(st.targets) == 1 and isinstance(st.targets[0], ast.Name) and isinstance(st.value, ast.Name)
+                        and isinstance(cls.body[[b for b in cls.body].index(st) - 1], ast.FunctionDef)
+                        and st.value.id in [b.name for b in cls.body if isinstance(b, ast.FunctionDef)]):
+                    raise Bad('class-level statement %s' % ast.unparse(st))
+            elif not (isinstance(st, ast.Expr) and isinstance(st.value, ast.Constant)):
+                raise Bad('class-level statement %s' % ast.unparse(st).split('\n')[0])
+        scopes = [cls] + [n for n in url.tree.body if isinstance(n, ast.FunctionDef)]
+        for scope in scopes:
+            for n in ast.walk(scope):
+                tgts = []
+                if isinstance(n, ast.Assign):
+                    tgts = n.targets
+                elif isinstance(n, (ast.AugAssign, ast.AnnAssign)):
+                    tgts = [n.target]
+                elif isinstance(n, ast.Delete):
+                    tgts = n.targets
+                for t in tgts:
+                    for x in ast.walk(t):
+                        if isinstance(x, ast.Attribute) and isinstance(x.ctx, (ast.Store, ast.Del)):
+                            raise Bad('attribute store %s' % ast.unparse(n).split('\n')[0])
+                        if isinstance(x, ast.Subscript) and isinstance(x.ctx, (ast.Store, ast.Del)) and \
+                                not (isinstance(x.value, ast.Name) and x.value.id in ('kw', 'urlkw', 'newkw')):
+                            raise Bad('item store outside the keyword dictionaries: %s' % ast.unparse(n).split('\n')[0])
+                if isinstance(n, ast.Call):
+                    f = n.func
+                    name = f.id if isinstance(f, ast.Name) else f.attr if isinstance(f, ast.Attribute) else ''
+                    if name in ('setattr', 'delattr', '__setattr__', 'setdefault') or \
+                            (name in ('update', 'pop', 'clear') and isinstance(f, ast.Attribute)
+                             and not (isinstance(f.value, ast.Name) and f.value.id in ('kw', 'urlkw', 'newkw'))):
+                        raise Bad('state-changing call %s' % ast.unparse(n))
+                if isinstance(n, ast.Attribute) and n.attr == '__dict__':
+                    raise Bad('__dict__ access')
+        for st in url.tree.body:
+            if isinstance(st, ast.ImportFrom) and any(a.name in ('reify', 'cached_property', 'cache') for a in st.names):
+                raise Bad('url.py imports %s' % [a.name for a in st.names])
+        bools['url_helpers_keep_no_request_state'] = True
+    attempt('request state', stateless)
 
     def static():
         fn = _need(views.find('StaticURLInfo.generate'), 'StaticURLInfo.generate')
